@@ -74,9 +74,8 @@ def _body(rng):
 
 
 def _body_nested(rng):
-    """Bodies for the nested-wrapper variant: emit on EVERY run (erun) and never look at the inputs' modified
-    flags for state or timers (acc = cnt = rtick = 0), so the activation cycle is observable at the output and
-    the body is insensitive to the modified-flag difference documented in notes-switch.md section 6."""
+    """Bodies that emit on EVERY run (erun): the activation cycle of a nested wrapper is observable at the output
+    whatever the inputs' modified flags say."""
     return dict(sos=rng.randint(0, 1), etick=rng.randint(0, 1), ewake=rng.randint(0, 1), rtick=0, rwake=rng.randint(0, 1),
                 d=rng.choice([1, 1, 2, 3, 4]), c=rng.randint(-5, 20), m=rng.randint(-1, 2), l=rng.choice([1, 1, 2, -1, 0]),
                 acc=0, cnt=0, wk=rng.randint(0, 3), erun=1, sd=rng.choice([0, 0, 1, 2, 3]))
@@ -108,8 +107,8 @@ def gen(rng, tier, prop):
     case = [[1, start, end], hdr]
     nslots = rng.randint(1, NSLOT)
     for s in range(nslots):
-        b = _body_nested(rng) if depth else _body(rng)
-        if not depth and rng.random() < 0.1:
+        b = _body_nested(rng) if depth and rng.random() < 0.3 else _body(rng)    # nested wrappers take every body
+        if rng.random() < 0.1:
             b["erun"] = 1
         case.append(_body_line(s, b))
     keys = rng.sample([1, 2, 3, 4, 5], rng.randint(1, 4))
@@ -410,19 +409,13 @@ def oracle(prop, case, out):
         got_runs = [(l[1], l[3], l[4], [tuple(l[5 + 3 * j: 8 + 3 * j]) for j in range((len(l) - 5) // 3)])
                     for l in out if l[0] == 26 and l[2] == n]
         if d["depth"] > 0:
-            # the wrapped body does not read the sampled inputs as modified (observation, see notes): compare
-            # the runs without that flag, and name any remaining difference after the wrapper
-            if any(iv[0] == 1 and iv[1] == 0 for iv in (got_runs[0][3] if got_runs and got_runs[0][0] == t0 else [])) \
-                    and runs and runs[0][0] == t0 and any(iv[1] == 1 for iv in runs[0][3]):
-                fails.append(("nested_modified_flag_lost", "instance %d at %d: the body wrapped in a nested graph reads its "
-                              "sampled inputs as %s; inlined it reads %s" % (n, t0, got_runs[0][3], runs[0][3])))
+            # the wrapper is transparent: the wrapped body runs exactly when, and reads exactly what, the inlined body does
             if got_runs and got_runs[0][1] != 0:
                 fails.append(("not_fresh", "instance %d (key %d selected at %d) first runs with state %d, not 0"
                               % (n, k, t0, got_runs[0][1])))
-            strip = lambda rs: [(a, b, c, [(v, 0, x) for (v, _, x) in ivs]) for (a, b, c, ivs) in rs]
-            if strip(got_runs) != strip(runs):
+            if got_runs != runs:
                 fails.append(("nested_in_branch_differs", "instance %d (branch slot %d, body nested %d deep) ran %s; the inlined "
-                              "body runs %s" % (n, br[0], d["depth"], strip(got_runs)[:6], strip(runs)[:6])))
+                              "body runs %s (t, state, woke, [(valid, modified, value)])" % (n, br[0], d["depth"], got_runs[:6], runs[:6])))
             continue
         if got_runs and got_runs[0][1] != 0:
             fails.append(("not_fresh", "instance %d (key %d selected at %d) first runs with state %d, not 0"
@@ -491,21 +484,12 @@ PROP_KINDS = {
 
 # ---------------------------------------------------------------- comparison
 def _norm_nested(out):
-    """Nested-wrapper cases (depth > 0) are compared modulo two documented differences of the unchanged tree
-    (notes-switch.md section 6): the `modified` flag the wrapped body reads in its activation cycle, and the
-    final state of the (now forwarding) switch output after the run has stopped."""
+    """Nested-wrapper cases (depth > 0) are compared modulo the final state of the switch output after the run
+    has stopped: with a nested wrapper the branch terminal is a forwarding endpoint, the switch runs with
+    output_forwards_to_child_terminal and its output reads invalid once the branch is stopped (notes section 6 (e))."""
     if not isinstance(out, list):
         return out
-    r = []
-    for l in out:
-        if l and l[0] == 30:
-            continue
-        if l and l[0] == 26:
-            l = list(l)
-            for j in range(6, len(l), 3):
-                l[j] = 0
-        r.append(l)
-    return r
+    return [l for l in out if not (l and l[0] == 30)]
 
 
 def agree(case, impl_out, model_out):
